@@ -2,7 +2,7 @@
 From Coq Require Import ZArith QArith List Permutation.
 From Coq Require Import Floats.PrimFloat.
 From PAFCommon Require Import PyFloat PyNum Lists.
-From PAFC16 Require Import Gen Lib Model Proofs Proofs2.
+From PAFC16 Require Import Gen Lib Machine Model Proofs Proofs2 Proofs3.
 Import ListNotations.
 
 (* n^d cells, each with d coordinates (exact arithmetic, every d and n >= 1) *)
@@ -151,6 +151,53 @@ Proof. exact shape_Q. Qed.
 Theorem C16_count_float : forall n : Z, (1 <= n <= 131072)%Z -> ml_count_F (gs_step_size_F n) = n.
 Proof. exact count_F. Qed.
 
+(* ONE GridSearch / Sensitivity object used several times, number_of_steps changed between uses (Machine.v: the
+   object is a state machine with an explicit lattice cache; the code that exists is `code_policy` = no cache):
+   every answer of every history is the answer of a fresh object with the current attributes *)
+Theorem C16_history_independent : forall (p : policy) (n0 : Z) (ops : list (@op Z (list (Q * Q)))),
+  sound p -> gs_run_Q p n0 ops = gs_expected_Q n0 ops.
+Proof. exact gs_history_independent_Q. Qed.
+
+Theorem C16_history_code : forall (n0 : Z) (ops : list (@op Z (list (Q * Q)))),
+  gs_run_Q code_policy n0 ops = gs_expected_Q n0 ops.
+Proof. exact gs_code_history_Q. Qed.
+
+(* the grid of the last use depends only on the current (n, limits): it is cells_Q n priors (to which C16_cells_of_job,
+   the tiling theorems and C16_count apply), whatever was done with the object before *)
+Theorem C16_history_last_cells : forall (n0 n : Z) (before : list (@op Z (list (Q * Q)))) (priors : list (Q * Q)),
+  gs_run_Q code_policy n0 (before ++ [OSetSteps n; OCells priors]) =
+  gs_run_Q code_policy n0 before ++ [RCells (cells_Q n priors)].
+Proof. exact gs_last_cells_Q. Qed.
+
+Theorem C16_history_last_lists : forall (n0 n : Z) (before : list (@op Z (list (Q * Q)))) (d : nat),
+  gs_run_Q code_policy n0 (before ++ [OSetSteps n; OLists d]) =
+  gs_run_Q code_policy n0 before ++ [RLists (grid_lists_Q d n)].
+Proof. exact gs_last_lists_Q. Qed.
+
+Theorem C16_history_last_count : forall (n0 n : Z) (before : list (@op Z (list (Q * Q)))) (priors : list (Q * Q)), (1 <= n)%Z ->
+  map out_size (gs_run_Q code_policy n0 (before ++ [OSetSteps n; OCells priors])) =
+  map out_size (gs_run_Q code_policy n0 before) ++ [(Z.to_nat n ^ length priors)%nat].
+Proof. exact gs_last_count_Q. Qed.
+
+Theorem C16_sensitivity_history_independent : forall (p : policy) (ns0 : list Z) (ops : list (@op (list Z) Q)),
+  sound p -> sens_run_Q p ns0 ops = sens_expected_Q ns0 ops.
+Proof. exact sens_history_independent_Q. Qed.
+
+Theorem C16_sensitivity_history_last_cells : forall (ns0 ns : list Z) (before : list (@op (list Z) Q)) (ls : Q),
+  sens_run_Q code_policy ns0 (before ++ [OSetSteps ns; OCells ls]) =
+  sens_run_Q code_policy ns0 before ++ [RCells (sens_cell_units_Q ls ns)].
+Proof. exact sens_last_cells_Q. Qed.
+
+Theorem C16_sensitivity_history_last_lists : forall (ns0 ns : list Z) (before : list (@op (list Z) Q)) (d : nat),
+  sens_run_Q code_policy ns0 (before ++ [OSetSteps ns; OLists d]) =
+  sens_run_Q code_policy ns0 before ++ [RLists (sens_lists_Q ns)].
+Proof. exact sens_last_lists_Q. Qed.
+
+(* a lattice cache keyed by the number of dimensions alone breaks it (coarse pass, then refinement) *)
+Theorem C16_cache_by_dimension_refuted : exists (n0 : Z) (ops : list (@op Z (list (Q * Q)))),
+  gs_run_Q ByDim n0 ops <> gs_expected_Q n0 ops.
+Proof. exact gs_by_dim_refuted_Q. Qed.
+
 Print Assumptions C16_count.
 Print Assumptions C16_tiling_contiguous.
 Print Assumptions C16_kth_any_order.
@@ -161,3 +208,7 @@ Print Assumptions C16_cells_of_job.
 Print Assumptions C16_reported_limits.
 Print Assumptions C16_sensitivity_kth_any_order.
 Print Assumptions C16_sensitivity_same_cells.
+Print Assumptions C16_history_independent.
+Print Assumptions C16_history_last_cells.
+Print Assumptions C16_sensitivity_history_independent.
+Print Assumptions C16_cache_by_dimension_refuted.
